@@ -44,7 +44,9 @@ def mirror(v):
     if isinstance(v, (tuple, list, set, frozenset)):
         return [mirror(e) for e in v]
     if isinstance(v, dict):
-        return {k: mirror(x) for k, x in v.items()}
+        return {str(k): mirror(x) for k, x in v.items()}
+    if isinstance(v, str):
+        return str(v)  # lark Tokens are str subclasses
     return v
 
 
